@@ -635,6 +635,26 @@ func checkProgram(c *kernel.RunCtx, p *program, seeded scribbleMode, nAttach int
 			c.Count("probe.edited_state_changed_verdict", 1)
 		}
 	}
+	// a debugger that is a struct VALUE (methods on the value, its state behind a pointer), handed over through ONE
+	// WithDebugger option value that is applied to two executions in a row
+	if len(rec.events) < maxEvents {
+		h := &recHolder{r: &recorder{max: maxEvents}}
+		opt := interpreter.WithDebugger(valDebugger{h})
+		for round := 0; round < 2; round++ {
+			c.Exec()
+			o := execProgramOn(c19Engine(), p, nil, opt)
+			if !o0.same(o) {
+				c.Fail("verdict", site, "with a value-type debugger passed through one WithDebugger option value (use %d of that value) the outcome %s became %s (%s flags %x unlock %x lock %x)", round+1, o0, o, p.src, uint32(p.flags), p.unlock, p.lock)
+				return
+			}
+			if dd := diffHistories(rec.events, h.r.events); dd != "" || len(rec.events) != len(h.r.events) {
+				c.Fail("lifecycle-order", site, "use %d of one WithDebugger option value: the debugger saw %d callbacks, a fresh option value gives %d: %s (%s flags %x unlock %x lock %x)", round+1, len(h.r.events), len(rec.events), dd, p.src, uint32(p.flags), p.unlock, p.lock)
+				return
+			}
+			h.r = &recorder{max: maxEvents}
+		}
+		c.Count("probe.option_value_applied_twice", 1)
+	}
 	// late attachment: a debug.NewDebugger that has nothing but one BeforeExecute function when Execute starts; that
 	// function attaches everything else. From then on it must see what the direct recording saw.
 	if first := firstOf(rec.events, evBE); first >= 0 && len(rec.events) < maxEvents {
@@ -744,6 +764,25 @@ func hasThirdScript(h []event) bool {
 	}
 	return false
 }
+
+// valDebugger implements interpreter.Debugger on a struct value.
+type recHolder struct{ r *recorder }
+type valDebugger struct{ h *recHolder }
+
+func (v valDebugger) BeforeExecute(s *interpreter.State)             { v.h.r.BeforeExecute(s) }
+func (v valDebugger) AfterExecute(s *interpreter.State)              { v.h.r.AfterExecute(s) }
+func (v valDebugger) BeforeStep(s *interpreter.State)                { v.h.r.BeforeStep(s) }
+func (v valDebugger) AfterStep(s *interpreter.State)                 { v.h.r.AfterStep(s) }
+func (v valDebugger) BeforeExecuteOpcode(s *interpreter.State)       { v.h.r.BeforeExecuteOpcode(s) }
+func (v valDebugger) AfterExecuteOpcode(s *interpreter.State)        { v.h.r.AfterExecuteOpcode(s) }
+func (v valDebugger) BeforeScriptChange(s *interpreter.State)        { v.h.r.BeforeScriptChange(s) }
+func (v valDebugger) AfterScriptChange(s *interpreter.State)         { v.h.r.AfterScriptChange(s) }
+func (v valDebugger) AfterSuccess(s *interpreter.State)              { v.h.r.AfterSuccess(s) }
+func (v valDebugger) AfterError(s *interpreter.State, err error)     { v.h.r.AfterError(s, err) }
+func (v valDebugger) BeforeStackPush(s *interpreter.State, d []byte) { v.h.r.BeforeStackPush(s, d) }
+func (v valDebugger) AfterStackPush(s *interpreter.State, d []byte)  { v.h.r.AfterStackPush(s, d) }
+func (v valDebugger) BeforeStackPop(s *interpreter.State)            { v.h.r.BeforeStackPop(s) }
+func (v valDebugger) AfterStackPop(s *interpreter.State, d []byte)   { v.h.r.AfterStackPop(s, d) }
 
 func firstOf(ev []event, k evKind) int {
 	for i := range ev {
